@@ -86,8 +86,9 @@ package transitioner
 //@   ensures dev != ""
 
 // doReset: READY -> DEVICE READY -> IDLE with INIT TASK rollback
+// (C02 relies on it: an executor answers with an error whenever the task did not reach the expected state)
 //@ func (cm *FairMQ) doReset(evt string, src string, dst string, args map[string]string) (finalState string, err error)
-//@   property C16
+//@   property C16 C02
 //@   opt strings=uf
 //@   modifies dev, lastTE, anyTE, rbTried
 //@   requires wfFMQ(cm) && dev != "" && src == "CONFIGURED" && (dst == "STANDBY" || dst == "DONE")
